@@ -236,10 +236,12 @@ class Oracle:
             return
         kv, vv = validation.split(":", 1)
         none_ok = contains_noneish(inp)
+        # values are paired with their input only when no two input keys were normalised onto one output key
+        pairable = isinstance(inp, dict) and len(inp) == len(out)
         for k, v in out.items():
             self.val(kv, UNKNOWN, k, path + "<key>", depth, none_ok)
             src = UNKNOWN
-            if isinstance(inp, dict):
+            if pairable:
                 try:
                     if k in inp:
                         src = inp[k]
@@ -352,8 +354,22 @@ class Oracle:
                 return
             return ill()
         if name == "pow2":
-            if type(out) is not int or out <= 0 or (out & (out - 1)) != 0:
-                return ill("not an int power of two")
+            # the representation is passed through (test_Config pins '128' -> '128'); the VALUE must be an exact
+            # positive power of two
+            try:
+                if isinstance(out, str):
+                    n = int(out)
+                elif isinstance(out, float):
+                    n = int(out) if out == int(out) else None
+                elif isinstance(out, int):
+                    n = int(out)
+                else:
+                    return ill()
+            except (ValueError, OverflowError):
+                n = None
+            if n is None or n <= 0 or (n & (n - 1)) != 0:
+                self.bad("type", "C12:pow2_not_power_of_two", path, validator=validator,
+                         inp=None if unknown else repr(inp)[:200], out=repr(out)[:200])
             return
         if name == "gain":
             if type(out) is not float:
